@@ -12,11 +12,6 @@ use std::collections::VecDeque;
 pub assume_specification<T, A: std::alloc::Allocator> [VecDeque::<T, A>::is_empty] (v: &VecDeque<T, A>) -> (r: bool)
     ensures r == (v@.len() == 0);
 #[derive(Clone, Copy, PartialEq, Eq, Structural)]
-pub struct StatusCode { pub bits: u32 }
-impl StatusCode {
-    pub const BadTimeout: StatusCode = StatusCode { bits: 0x800A_0000 };
-}
-#[derive(Clone, Copy, PartialEq, Eq, Structural)]
 pub struct DateTime { pub ticks: i64 }
 #[derive(Clone, Copy, PartialEq, Eq, Structural)]
 pub struct DateTimeUtc { pub ticks: i64 }
@@ -150,6 +145,7 @@ def build(manifest, pid=PID):
     # `DateTime::from(*now)` is the From<DateTimeUtc> conversion: kept as a call of the environment function DateTime::from
     a = Asm()
     a.add('#![feature(allocator_api)]\nuse vstd::prelude::*;\nverus! {\nglobal size_of usize == 8;\n', 'prelude', 'env')
+    a.add(status_code_struct(manifest), 'status codes', 'env')      # every status code of the real file (D14)
     a.add(ENV, 'env', 'env')
     a.add(norm_vis(types2), 'types', 'env')
     a.add('impl Handle {')
